@@ -55,3 +55,27 @@ fn leaf_read_u32_functions() {
     let idx: usize = kani::any();
     let _ = read_u32(&raw[..len], idx);
 }
+
+// ------------------------------------------------------------------ C04 compare (bounded twin of unit cmp)
+fn ord_i8(o: std::cmp::Ordering) -> i8 {
+    match o { std::cmp::Ordering::Less => -1, std::cmp::Ordering::Equal => 0, std::cmp::Ordering::Greater => 1 }
+}
+
+/// arrays of exactly two scalars from the menu of crate::verif_kani_spec::any_sc (equal numbers come in
+/// encodings of different widths): compare == lexicographic order of the element values, and is antisymmetric
+#[kani::proof]
+#[kani::unwind(40)]
+#[kani::stub(crate::parser::parse_value, no_text)]
+fn kb_compare_arrays2() {
+    let a = [any_sc(), any_sc()];
+    let b = [any_sc(), any_sc()];
+    let da = layout_array(&[a[0].it, a[1].it]);
+    let db = layout_array(&[b[0].it, b[1].it]);
+    let want = { let c = sc_cmp(&a[0], &b[0]); if c != 0 { c } else { sc_cmp(&a[1], &b[1]) } };
+    let r = compare(da.as_slice(), db.as_slice());
+    assert!(r.is_ok());
+    assert!(ord_i8(r.unwrap()) == want);
+    let r2 = compare(db.as_slice(), da.as_slice());
+    assert!(r2.is_ok() && ord_i8(r2.unwrap()) == -want);
+    kani::cover!(want == 0 && a[0].it.plen != b[0].it.plen);
+}
